@@ -139,7 +139,10 @@ func (sm *stateMachine) executeAction(t *T) bool {
 }
 
 func runAction(t *T, action func(*T)) (invalid bool, skipped bool) {
-	defer func(draws int) {
+	// an action counts as skipped (and its attempt is kept in the recording) only if it did not
+	// start drawing: a draw that gives up, e.g. a Filter out of tries, has consumed bits that are
+	// discarded, so the whole step has to be rejected with them
+	defer func(attempts int) {
 		if r := recover(); r != nil {
 			if _, ok := r.(invalidData); ok {
 				// a non-fatal failure signaled before the skip fails the test case here,
@@ -148,12 +151,12 @@ func runAction(t *T, action func(*T)) (invalid bool, skipped bool) {
 				t.failOnError()
 
 				invalid = true
-				skipped = t.draws == draws
+				skipped = t.attempts == attempts
 			} else {
 				panic(r)
 			}
 		}
-	}(t.draws)
+	}(t.attempts)
 
 	action(t)
 	t.failOnError()
